@@ -9,6 +9,7 @@ RULE = ("correspondence: generated add/double/neg/multiply/is_on_curve of the fo
         "real functions on G1, G2 (twist curve) and the degree-12 curve — subgroup points, points outside the subgroup, infinity, "
         "P=Q, P=-Q, scalars 0,1,2,3,r-1,r,r+1,2p-r,random up to 640 bits, random projective representatives; twist; "
         "predicates: group laws on the real modules vs an independent affine oracle (pure ints), reference vs optimized")
+EXTRA_MODULES = {"Props.TieHashCurve": "PyEcc.Tie."}
 HYPOTHESES = []
 NOT_YET_PROVED = []
 ASSUMPTIONS = []
